@@ -762,9 +762,14 @@ bool HttpMessage::sendHeaders()
 	else if (!hasHeader("Content-Length") && !hasHeader("Transfer-Encoding") && _command.startsWith("HTTP/"))
 	{
 		// a response written in pieces with neither a length nor a coding: its pieces go out as chunks (_chunked below),
-		// so the coding is announced; the framing being the library's choice, the library also ends the message (write())
-		setHeader("Transfer-Encoding", "chunked");
-		_ownChunks = true;
+		// so the coding is announced; the framing being the library's choice, the library also ends the message (write()).
+		// Not for a status that never has a body (1xx, 204, 304: RFC 7230 3.3.3), whose header block is the whole message
+		int code = _command.substring(_command.indexOf(' ') + 1);
+		if (code >= 200 && code != 204 && code != 304)
+		{
+			setHeader("Transfer-Encoding", "chunked");
+			_ownChunks = true;
+		}
 	}
 
 	String s;
